@@ -276,7 +276,9 @@ pub fn generate(_ctx: &mut Ctx, seed: u64, i: usize, mode: &str) -> Case {
         .map(|k| {
             let (ext, c) = if rng.chance(1, 10) { EXTS[4] } else { EXTS[[0, 1, 2, 3, 5, 6][rng.below(6)]] };
             let dir = ["", "src/", "a/", "b/", "b/b/", "docs/x y/"][rng.below(6)];
-            (format!("{dir}f{k}.{ext}"), c)
+            // one file in eight has a name that is registered as a whole (no extension in the `Path::extension` sense)
+            if rng.chance(1, 8) { (format!("{dir}m{k}/{}", ["Makefile", "makefile"][rng.below(2)]), "#") }
+            else { (format!("{dir}f{k}.{ext}"), c) }
         })
         .collect();
     // reference shapes: same-file ":name", cross-file "path:name", missing targets, duplicates
